@@ -2,7 +2,7 @@ CONSTANTS
  Vals = {"a", "b", "c"}
  V0 = "a"
  MaxEdits = 2
- MaxTrans = 2
+ MaxTrans = 1
  AccelAllowed = TRUE
  FullScans = FALSE
  ResetInTransition = TRUE
